@@ -424,7 +424,8 @@ def _rule_sections(files, rel):
 
 
 def _cmp(oc):
-    return oc[:2] if oc[0] == "exc" else oc
+    # both routes failing is agreement, whatever the exception classes (one route may word its errors better)
+    return oc[:1] if oc[0] == "exc" else oc
 
 
 def evaluate_case(case, runner, seed=0):
